@@ -9,6 +9,6 @@ Extraction "../ocaml/c13/model.ml" can_be_ignored classify is_ignorable accept p
   request_error_of_name request_error_name all_request_errors
   btimed_runs baccept_guided prop_trace mkConfig
   E2ESpec.e2e_check13 E2ESpec.prop_overlap E2ESpec.prop_first_real E2ESpec.prop_last_error E2EAttempts.prop_frames E2EAttempts.fiber_check
-  E2EAttempts.mkFrame E2EAttempts.mkCert E2EAttempts.e2e_check E2EAttempts.check_multi E2EAttempts.check_timeout E2EAttempts.prop_timeout_frames E2ESpec.starts_ok E2ESpec.mk_env
+  E2EAttempts.mkFrame E2EAttempts.mkCert E2EAttempts.e2e_check E2EAttempts.check_multi E2EAttempts.check_timeout E2ESpec.starts_ok E2ESpec.mk_env
   Spec.step Spec.init Fiber.fiber Retry.new_session E2ESpec.conv_result
   Z.of_N. (* Z.of_N only so that the shared glue (ocaml/common/conv.ml) finds the type z *)
